@@ -220,12 +220,15 @@ def run_case(item):
             else:
                 ee = e.copy()
                 parts = S.Zero
+                only_denom = op == "canon_sign" and rng2.random() < 0.5
+                if only_denom:
+                    res["op"] = "canon_sign(only_denom=True)"
                 for t in ee.terms:
                     eo = EriOrbenergy(t)
                     if op == "split":
                         parts += eo.expr.sympy
                     elif op == "canon_sign":
-                        parts += eo.canonicalize_sign().expr.sympy
+                        parts += eo.canonicalize_sign(only_denom=only_denom).expr.sympy
                     elif op == "permute_num":
                         parts += eo.permute_num().expr.sympy
                     else:
@@ -233,6 +236,7 @@ def run_case(item):
                 out = Expr(parts, target_idx=T)
         elif op in ("factor_eri", "factor_denom"):
             terms = []
+            orphan = op == "factor_eri" and not spin and rng2.random() < 0.25
             from vlib.tv import rename_contracted
             contracted = [s for s in idx if s not in T]
             for _ in range(rng.randint(2, 4)):
@@ -241,8 +245,20 @@ def run_case(item):
                 if contracted and rng.random() < 0.6:
                     r2, sub = rename_contracted(rem, contracted, rng, POOL, keep=T)
                     num, den = num.xreplace(sub), den.xreplace(sub)
-                terms.append(rng.choice([1, -1, Rational(1, 2)]) * num * r2 / den)
+                term_ = rng.choice([1, -1, Rational(1, 2)]) * num * r2 / den
+                if orphan and rng2.random() < 0.7:
+                    # a contracted index that occurs in the orbital-energy part only
+                    from adcgen.indices import Index as _Index
+                    used_ = {s_.name for s_ in term_.atoms(_Index)} | {s_.name for s_ in T}
+                    sp_ = rng2.choice("ov")
+                    free_ = [n_ for n_ in POOL[sp_][:6] if n_ not in used_]
+                    if free_:
+                        from adcgen.indices import get_symbols as _gs
+                        term_ = term_ * rng2.choice([1, 2]) * _e(_gs(rng2.choice(free_))[0])
+                terms.append(term_)
             e = Expr(Add(*terms), target_idx=T)
+            if orphan:
+                res["op"] = "factor_eri(orphan energy index)"
             res["in"] = str(e)
             if e.sympy is S.Zero or e.sympy.is_number:
                 return {"status": "skipped", "item": item}
